@@ -71,6 +71,7 @@ Inductive err :=
   | EHdrSize | EVersion | EName                                  (* TRK header *)
   | EStruct | EBufSmall | ETruncated | ENegPts                   (* TRK data *)
   | EColon | ENameLen | ETooMany | EZeroDiv | EScalars | EProps  (* writers (refusals) *)
+  | EBadPoint                                                    (* TckFile.save: an all-NaN / all-inf point *)
   | EOrder                                                       (* invalid voxel order *)
   | EFuel.
 Inductive res (A : Type) := Ok (a : A) | Err (e : err).
@@ -143,6 +144,13 @@ Definition enc_triple (be : bool) (t : triple) : list Z :=
   let '(x, y, z) := t in enc be 4 x ++ enc be 4 y ++ enc be 4 z.
 Definition enc_points (be : bool) (s : list triple) : list Z := flat_map (enc_triple be) s.
 
+Definition f32_exp (u : Z) : Z := (u / 8388608) mod 256.
+Definition f32_man (u : Z) : Z := u mod 8388608.
+Definition f32_isnan (u : Z) : bool := (f32_exp u =? 255) && negb (f32_man u =? 0).
+Definition f32_isinf (u : Z) : bool := (f32_exp u =? 255) && (f32_man u =? 0).
+Definition nan3 (t : triple) : bool := let '(x, y, z) := t in f32_isnan x && f32_isnan y && f32_isnan z.
+Definition inf3 (t : triple) : bool := let '(x, y, z) := t in f32_isinf x && f32_isinf y && f32_isinf z.
+
 (* np.r_[streamline, FIBER_DELIMITER].astype('<f4').tobytes() per streamline, then EOF_DELIMITER *)
 Definition tck_data (sl : list (list triple)) : list Z :=
   flat_map (fun s => enc_points false s ++ tck_fiber_delim) sl ++ tck_eof_delim.
@@ -182,6 +190,9 @@ Definition tck_save (count0 : Z) (items : list (list Z * list Z)) (sl : list (li
                 Ok (fbytes (fo_write tck_eof_delim f2))
       end
     | _ =>
+      (* a point that is all NaN (the streamline delimiter) or all infinite (the end-of-file marker)
+         is refused: DataError *)
+      if existsb (existsb (fun t => nan3 t || inf3 t)) sl then Err EBadPoint else
       let f2 := fo_write (flat_map (fun s => enc_points false s ++ tck_fiber_delim) sl) f1 in
       let f3 := fo_write tck_eof_delim f2 in
       match tck_header (zlen sl) items with
@@ -307,13 +318,6 @@ Definition tck_parse_header (f : list Z) : res (bool * Z) :=
     end.
 
 (* ------------------------------------------------------------------ TCK data reader *)
-Definition f32_exp (u : Z) : Z := (u / 8388608) mod 256.
-Definition f32_man (u : Z) : Z := u mod 8388608.
-Definition f32_isnan (u : Z) : bool := (f32_exp u =? 255) && negb (f32_man u =? 0).
-Definition f32_isinf (u : Z) : bool := (f32_exp u =? 255) && (f32_man u =? 0).
-Definition nan3 (t : triple) : bool := let '(x, y, z) := t in f32_isnan x && f32_isnan y && f32_isnan z.
-Definition inf3 (t : triple) : bool := let '(x, y, z) := t in f32_isinf x && f32_isinf y && f32_isinf z.
-
 (* np.frombuffer(buff, dtype).astype('<f4').reshape((-1, 3)) on a buffer whose length is a
    multiple of 12 *)
 Fixpoint triples_of (be : bool) (l : list Z) : list triple :=
